@@ -84,3 +84,26 @@ package js_parser
 //@   requires p != nil
 //@   ensures exported-symbol-is-chain-end: !old(inDom(p.namedExports, alias)) ==>
 //@       inDom(p.namedExports, alias) && p.symbols[p.namedExports[alias].Ref.InnerIndex].Link == ast.InvalidRef
+
+// ----------------------------------------------------------------------------------------------
+// C15: "names that are observable from outside are never renamed". hoistSymbols pins a `var` hoisted past a
+// `with` statement (MustNotBeRenamed: the name may denote a property of the with-object). Hoisting can also
+// MERGE the symbol into an existing outer one by setting Symbol.Link, after which only the outer symbol is
+// looked at by the renamers. Every link written here must therefore carry the pin along: if the linked-away
+// hoisted symbol is pinned, the symbol it now stands for is pinned as well (or is unbound, which is never
+// renamed).
+//@ func (*parser).hoistSymbols
+//@   arith int
+//@   prop C15
+//@   opt scenario with_var_merge_pin
+//@   site pin-survives-link: store Symbol.Link requires target.Kind.IsHoisted() && target.Flags.Has(ast.MustNotBeRenamed) ==>
+//@       p.symbols[value.InnerIndex].Flags.Has(ast.MustNotBeRenamed) || p.symbols[value.InnerIndex].Kind == ast.SymbolUnbound
+
+// C14: a `let`/`const` declaration that the parser GENERATES (as opposed to one it read from the input) must
+// sit under a test that the target has let/const (p.selectLocalKind does that; a hard-coded LocalLet/LocalConst
+// must be dominated by !Has(compat.ConstAndLet)). Sites that only mirror the input are excepted with the reason.
+//@ gate generated-let C14: feature=compat.ConstAndLet ; site=store SLocal.Kind const js_ast.LocalLet,js_ast.LocalConst ; in=js_parser ; scenario=ts_namespace_let_es5 ; except=(*parser).parseExprOrLetOrUsingStmt:parses a let written in the input (markSyntaxFeature reports it for such targets),(*parser).parseStmt:parses a const written in the input (markSyntaxFeature reports it),(*parser).visitAndAppendStmt:turns a `using` of the input into const under minify-syntax (the input already needs a newer target),(*parser).visitStmts:temporary for an inner class name - class syntax is rejected for targets without let/const,(*parser).lowerObjectRestInCatchBinding:the catch binding was a destructuring pattern - rejected for targets without let/const
+// Arrow functions that the parser GENERATES while lowering (after the visit pass that would lower a user-written
+// arrow to a function expression) must be gated on the target supporting arrows. parseArrowBody only builds the
+// node for an arrow written in the input (lowered later by the visit pass if needed).
+//@ gate parser-arrow C14: feature=compat.Arrow ; site=alloc EArrow ; in=js_parser ; except=(*parser).parseArrowBody:builds the node for an arrow written in the input (the visit pass lowers it to a function when arrows are unsupported)
